@@ -7,10 +7,10 @@ package ast
 // tree. The work list starts as the body's own child slice; appending to it
 // must never land in that slice's backing array.
 //@ func (*MsgNode).Placeholder
-//@   props C08 C09 C11
+//@   props C08 C09 C11 C03
 //@   pure
 //@   nosafety
-//@   ensures[found-has-the-name;C11] result != nil ==> result.Name == name
+//@   ensures[found-has-the-name;C11,C03] result != nil ==> result.Name == name
 //@   loop 0
 //@     invariant fresh(q)
 //@     noterm
